@@ -11,11 +11,6 @@ Modes
                                              followed by `<TAB>` and the captured stderr (newlines as ` | `).
                                              Every model goes through `rten_convert.converter.main()`
                                              (its CLI entry point) with `--no-infer-shapes`.
-  run_convert.py [--repo R] --consts FILE    FILE: one constant per line `<dtype> <enc> <dims,> <hex bytes or values>`;
-                                             pushes each through the converter's own
-                                             `constant_node_from_onnx_initializer` (numpy executes the
-                                             clip/astype) and writes FILE.result: `<np dtype> <shape> <hex of tobytes()>`
-                                             or `fail <ExceptionClass>`.
   run_convert.py [--repo R] --selftest [--verif V]   shim self-checks (FlatBuffers write/read round trip
                                              through the generated schema, protobuf field tables vs the
                                              table extracted from rten-onnx).
@@ -26,7 +21,6 @@ import contextlib
 import io
 import os
 import re
-import struct
 import sys
 
 sys.dont_write_bytecode = True
@@ -75,53 +69,6 @@ def run_batch(list_path):
         results.append(status + "\t" + one_line(err.getvalue()))
     with open(list_path + ".result", "w") as f:
         for r in results:
-            f.write(r + "\n")
-
-
-_DT = {"float": 1, "uint8": 2, "int8": 3, "uint16": 4, "int16": 5, "int32": 6, "int64": 7, "bool": 9,
-       "float16": 10, "double": 11, "uint32": 12, "uint64": 13}
-
-
-def run_consts(path):
-    """Each line: `<dtype> raw <dims> <hex>` or `<dtype> typed <dims> <v1,v2,..>` (typed values:
-    decimal ints for the integer storage fields, hex bit patterns `0x..` for float/double)."""
-    import onnx
-    import rten_convert.converter as converter
-    import rten_convert.util as util
-
-    out = []
-    with open(path) as f:
-        lines = [ln.strip() for ln in f if ln.strip()]
-    for ln in lines:
-        dtype, enc, dims, payload = (ln.split(" ") + [""])[:4]
-        t = onnx.TensorProto()
-        t.name = "c"
-        t.data_type = _DT[dtype]
-        t.dims = [int(d) for d in dims.split(",") if d != ""] if dims != "-" else []
-        vals = [v for v in payload.split(",") if v != ""]
-        if enc == "raw":
-            t.raw_data = bytes.fromhex(payload)
-        elif dtype == "float":
-            t.float_data = [struct.unpack("<f", struct.pack("<I", int(v, 16)))[0] for v in vals]
-        elif dtype == "double":
-            t.double_data = [struct.unpack("<d", struct.pack("<Q", int(v, 16)))[0] for v in vals]
-        elif dtype == "int64":
-            t.int64_data = [int(v) for v in vals]
-        elif dtype in ("uint32", "uint64"):
-            t.uint64_data = [int(v) for v in vals]
-        else:
-            t.int32_data = [int(v) for v in vals]
-        util.EMITTED_WARNINGS.clear()
-        try:
-            with contextlib.redirect_stderr(io.StringIO()):
-                node = converter.constant_node_from_onnx_initializer(t, None)
-            data = node.data
-            out.append("%s %s %s" % (data.dtype.name, ",".join(str(d) for d in node.shape) or "-",
-                                     data.astype(data.dtype.newbyteorder("<")).tobytes().hex() or "-"))
-        except BaseException as ex:  # noqa: BLE001
-            out.append("fail %s" % type(ex).__name__)
-    with open(path + ".result", "w") as f:
-        for r in out:
             f.write(r + "\n")
 
 
@@ -235,14 +182,11 @@ def main():
     ap.add_argument("--repo", default=os.environ.get("VERIF_REPO") or "/repo")
     ap.add_argument("--verif", default=os.path.dirname(os.path.dirname(HERE)))
     ap.add_argument("--batch")
-    ap.add_argument("--consts")
     ap.add_argument("--selftest", action="store_true")
     a = ap.parse_args()
     setup_path(a.repo)
     if a.selftest:
         selftest(a.verif)
-    if a.consts:
-        run_consts(a.consts)
     if a.batch:
         run_batch(a.batch)
 
